@@ -152,7 +152,7 @@ def stepIter (cx : Ctx) (rc : Recv) (op : String) (args : List String) : Option 
       { cx.same with status := (match out.err with | none => "ok" | some e => errStatus e), toks := out.toks, data := data }
   match op, args with
   | "rows", [w] => pure (mk (do let r ← rc.rows m; pure (.rows r)) w false)
-  | "rows_mut", [w] => if !rc.isMut then pure cx.badOp else pure (mk (do let r ← rc.rows m; pure (.rows r)) w true)
+  | "rows_mut", [w] => if !rc.isMut then pure cx.badOp else pure (mk (do let r ← rc.rows m; pure (.rows r true)) w true)
   | "col", [c, w] => do let c ← nat? c; pure (mk (do let x ← rc.col m c; pure (.col x)) w false)
   | "col_mut", [c, w] => do
     let c ← nat? c
